@@ -19,6 +19,10 @@ func main() {
 		ledgerMain(os.Args[2:])
 	case "file":
 		fileMain(os.Args[2:])
+	case "race":
+		raceMain(os.Args[2:])
+	case "seal":
+		sealMain(os.Args[2:])
 	case "shapes":
 		shapesMain(os.Args[2:])
 	case "notary":
